@@ -128,6 +128,22 @@ theorem C10_monotone_no_refutation_partial (L : LogicData) (W : Weights)
   obtain ⟨hM, hc⟩ := Ptx.Props.C02.C02_countermodel_partial L W hcore hW hT hF htb arg' t' hd' b hb hsat hg
   exact C10_monotone_partial L hsound arg arg' hsub hconc t hd hclosed _ hM _ _ hc
 
+/-- (first-order branches: quantifier rules included, weights for every row)
+    Monotonicity, both halves: if some legal derivation for `Γ ⊢ A` closes, no legal derivation for
+    an argument with more premises and the same conclusion reaches a tableau with a saturated
+    (ground) open branch. -/
+theorem C10_monotone_no_refutation_fo_partial (L : LogicData) (W : Weights)
+    (hsound : L.soundCoreB = true) (hcore : L.hintikkaCoreB = true)
+    (hW : L.measureOKB W = true)
+    (hT : L.T.vals.contains .T = true) (hF : L.T.vals.contains .F = true) (htb : L.trunkBackB = true)
+    (arg arg' : Argument) (hsub : ∀ p ∈ arg.premises, p ∈ arg'.premises)
+    (hconc : arg'.conclusion = arg.conclusion)
+    (t : Tableau) (hd : Deriv L.soundPart (trunk L arg) t) (hclosed : t.allClosed = true)
+    (t' : Tableau) (hd' : Deriv L (trunk L arg') t')
+    (b : Branch) (hb : b ∈ t') (hsat : L.saturatedB b = true) (hg : b.foB L = true) : False := by
+  obtain ⟨hM, hc⟩ := Ptx.Props.C02.C02_countermodel_fo_partial L W hcore hW hT hF htb arg' t' hd' b hb hsat hg
+  exact C10_monotone_partial L hsound arg arg' hsub hconc t hd hclosed _ hM _ _ hc
+
 /-- Renaming, both halves: if some legal derivation for the argument closes, no legal derivation
     for its renaming reaches a tableau with a saturated (ground) open branch. -/
 theorem C10_renaming_no_refutation_partial (L : LogicData) (W : Weights)
@@ -139,6 +155,20 @@ theorem C10_renaming_no_refutation_partial (L : LogicData) (W : Weights)
     (t' : Tableau) (hd' : Deriv L (trunk L (ρ.arg arg)) t')
     (b : Branch) (hb : b ∈ t') (hsat : L.saturatedB b = true) (hg : b.groundB L = true) : False := by
   obtain ⟨hM, hc⟩ := Ptx.Props.C02.C02_countermodel_partial L W hcore hW hT hF htb (ρ.arg arg) t' hd' b hb hsat hg
+  exact (C10_renaming_valid_partial L hsound ρ σ hρ hσ hinv arg).1 t hd hclosed _ hM _ _ hc
+
+/-- (first-order branches: quantifier rules included, weights for every row)
+    Renaming, both halves: if some legal derivation for the argument closes, no legal derivation
+    for its renaming reaches a tableau with a saturated (ground) open branch. -/
+theorem C10_renaming_no_refutation_fo_partial (L : LogicData) (W : Weights)
+    (hsound : L.soundCoreB = true) (hcore : L.hintikkaCoreB = true)
+    (hW : L.measureOKB W = true)
+    (hT : L.T.vals.contains .T = true) (hF : L.T.vals.contains .F = true) (htb : L.trunkBackB = true)
+    (ρ σ : Ren) (hρ : ρ.OK) (hσ : σ.OK) (hinv : σ.LeftInv ρ) (arg : Argument)
+    (t : Tableau) (hd : Deriv L.soundPart (trunk L arg) t) (hclosed : t.allClosed = true)
+    (t' : Tableau) (hd' : Deriv L (trunk L (ρ.arg arg)) t')
+    (b : Branch) (hb : b ∈ t') (hsat : L.saturatedB b = true) (hg : b.foB L = true) : False := by
+  obtain ⟨hM, hc⟩ := Ptx.Props.C02.C02_countermodel_fo_partial L W hcore hW hT hF htb (ρ.arg arg) t' hd' b hb hsat hg
   exact (C10_renaming_valid_partial L hsound ρ σ hρ hσ hinv arg).1 t hd hclosed _ hM _ _ hc
 
 /-- non-vacuity: swapping the sentence letters 0 and 1 is a renaming with itself as inverse -/
